@@ -66,8 +66,8 @@ def _conjuncts(tests):
 def _names(node):
     return {n.id for n in ast.walk(node) if isinstance(n, ast.Name)} | {ast.unparse(n) for n in ast.walk(node) if isinstance(n, ast.Attribute)}
 
-def python_sites(ctx, repo):
-    ctx.rule('C08.3-sites', 'every out7ffd() call from a port-write handler is guarded by (port & 0x8002) == 0 and the lock bit, and records the value', floor=9)
+def python_sites(ctx, repo, rule='C08.3-sites', floor=9):
+    ctx.rule(rule, 'every out7ffd() call from a port-write handler is guarded by (port & 0x8002) == 0 and the lock bit, and records the value', floor=floor)
     sites = 0
     for mod in repo.all_modules():
         if 'out7ffd' not in mod.src:
